@@ -268,30 +268,74 @@ def run_parse_rules(res, ast):
                 if "]" in arms and strip_paren(arms["]"]["body"])["t"] == "BlockExpr":
                     st = strip_paren(arms["]"]["body"])["block"]["stmts"]
                     first = st[0]["expr"] if st and st[0]["t"] == "ExprStmt" else None
+
+                    def err_struct(block, kind):
+                        """the single `return Err(Error { kind: ErrorKind::<kind>, position: P, .. })` of a block -> P node, else None"""
+                        rets = [r for r in walk_t(block, "Return")]
+                        if len(rets) != 1 or rets[0].get("expr") is None:
+                            return None
+                        e_ = strip_paren(rets[0]["expr"])
+                        if not (e_["t"] == "Call" and path_name(e_["func"]) == "Err" and len(e_["args"]) == 1 and strip_paren(e_["args"][0])["t"] == "StructExpr"):
+                            return None
+                        fl = {x["member"]: x["expr"] for x in strip_paren(e_["args"][0])["fields"]}
+                        if path_name(strip_paren(fl.get("kind", {}))) != "ErrorKind::" + kind or "position" not in fl:
+                            return None
+                        return fl["position"]
                     okf = False
+                    pop_in_test = False
                     if first is not None and first["t"] == "If" and first["else"] is None:
-                        c = ast.src1(IR, first["cond"]).replace(" ", "")
-                        rets = [r for r in walk_t(first["then"], "Return")]
-                        txt = ast.src1(IR, first["then"], 400).replace(" ", "")
-                        okf = c == f"{posn}.is_empty()" and len(rets) == 1 and "ErrorKind::LoopNotOpened" in txt and f"position:{ivar}," in txt
+                        c_ = strip_paren(first["cond"])
+                        pos_ = err_struct(first["then"], "LoopNotOpened")
+                        empty_test = pm.match_expr(c_, f"{posn}.is_empty()") is not None
+                        pop_in_test = any(pm.match_expr(c_, pt) is not None for pt in (f"{posn}.pop().is_none()", f"!{posn}.pop().is_some()"))
+                        okf = (empty_test or pop_in_test) and pos_ is not None and path_name(strip_paren(pos_)) == ivar
+                    elif st and st[0]["t"] == "Local" and st[0].get("else") is not None and st[0].get("init") is not None:
+                        # let Some(_) = positions.pop() else { return Err(..) };
+                        pop_in_test = pm.match_expr(strip_paren(st[0]["init"]), f"{posn}.pop()") is not None and st[0]["pat"]["t"] == "PTupleStruct" and st[0]["pat"]["path"]["name"] == "Some"
+                        eb = st[0]["else"]
+                        pos_ = err_struct(eb, "LoopNotOpened")
+                        okf = pop_in_test and pos_ is not None and path_name(strip_paren(pos_)) == ivar
+                        first = st[0]
                     res.check(okf, "ERR-POS", f"{IR}|parse|not-opened", where(IR, arms["]"], "parse"),
-                              f"`]` must first test positions.is_empty() and return LoopNotOpened at position `{ivar}`")
+                              f"`]` must first test whether the position stack is empty (is_empty(), or pop() giving None) and return LoopNotOpened at position `{ivar}`")
                     pops = [x for x in walk_t(arms["]"]["body"], "MethodCall") if x["method"] == "pop" and path_name(x["receiver"]) in (posn, stkn)]
-                    res.check(first is not None and all(x["sp"][0] > first["sp"][2] for x in pops) and len(pops) == 2, "STACK-PAIR",
-                              f"{IR}|parse|close-after-test", where(IR, arms["]"], "parse"), "both pops must follow the emptiness test")
-            # tail: LoopNotClosed
+                    later = [x for x in pops if first is not None and x["sp"][0] > first["sp"][2]]
+                    intest = [x for x in pops if first is not None and first["sp"][0] <= x["sp"][0] <= first["sp"][2]]
+                    okp = first is not None and len(pops) == 2 and ((len(later) == 2 and not pop_in_test) or
+                                                                    (pop_in_test and len(later) == 1 and path_name(later[0]["receiver"]) == stkn and len(intest) == 1 and path_name(intest[0]["receiver"]) == posn))
+                    res.check(okp, "STACK-PAIR", f"{IR}|parse|close-after-test", where(IR, arms["]"], "parse"), "the block stack must be popped only after the emptiness test, and each stack exactly once")
+            # tail: LoopNotClosed at the innermost unclosed `[` (the top of the position stack)
+            posn_ = posn if main is not None and "posn" in dir() else "positions"
+            stkn_ = stkn if main is not None and "stkn" in dir() else "stack"
             tail_ifs = [s["expr"] for s in body["stmts"] if s["t"] == "ExprStmt" and s["expr"]["t"] == "If" and s["sp"][0] > main["sp"][2]]
-            okt = False
+            okt, why_t = False, "no test for unclosed loops after the scan"
+            top_exprs = (f"*{posn_}.last().unwrap()", f"{posn_}[{posn_}.len() - 1]", f"{posn_}.pop().unwrap()", f"{posn_}.last().copied().unwrap()", f"*{posn_}.last().expect(__e_m)")
             for i in tail_ifs:
-                c = ast.src1(IR, i["cond"]).replace(" ", "")
-                txt = ast.src1(IR, i["then"], 400).replace(" ", "")
-                posn_ = posn if main is not None and "posn" in dir() else "positions"
-                stkn_ = stkn if main is not None and "stkn" in dir() else "stack"
-                if c in (f"{stkn_}.len()!=1", f"!{posn_}.is_empty()", f"{stkn_}.len()>1") and "ErrorKind::LoopNotClosed" in txt:
-                    okt = any(x in txt for x in (f"position:*{posn_}.last().unwrap()", f"position:{posn_}[{posn_}.len()-1]",
-                                                 f"position:{posn_}.pop().unwrap()"))
+                pos_ = err_struct(i["then"], "LoopNotClosed") if "err_struct" in dir() else None
+                if pos_ is None:
+                    continue
+                c_ = strip_paren(i["cond"])
+                bound = None
+                if c_["t"] == "Let":
+                    src_ok = any(pm.match_expr(strip_paren(c_["expr"]), pt) is not None for pt in (f"{posn_}.last()", f"{posn_}.pop()", f"{posn_}.last().copied()", f"{posn_}.last().cloned()"))
+                    names_ = [n_["name"] for n_ in walk_t(c_["pat"], "PIdent")]
+                    if src_ok and c_["pat"]["t"] == "PTupleStruct" and c_["pat"]["path"]["name"] == "Some" and len(names_) == 1:
+                        bound = names_[0]
+                    cond_ok = bound is not None
+                    if not src_ok:
+                        why_t = f"the reported position is taken from `{ast.src1(IR, c_['expr'])}`, not from the top of the position stack (the innermost unclosed `[`)"
+                else:
+                    cond_ok = any(pm.match_expr(c_, pt) is not None for pt in (f"{stkn_}.len() != 1", f"{stkn_}.len() > 1", f"!{posn_}.is_empty()", f"{posn_}.len() != 0", f"{posn_}.len() > 0"))
+                p_ = strip_paren(pos_)
+                while p_["t"] == "Unary" and p_["op"] == "*":
+                    p_ = strip_paren(p_["expr"])
+                val_ok = (bound is not None and path_name(p_) == bound) or any(pm.match_expr(strip_paren(pos_), pt) is not None for pt in top_exprs)
+                if cond_ok and val_ok:
+                    okt = True
+                elif cond_ok:
+                    why_t = f"LoopNotClosed is reported at `{ast.src1(IR, pos_)}`, which is not the top of the position stack"
             res.check(okt, "ERR-POS", f"{IR}|parse|not-closed", w0,
-                      "after the scan: `if stack.len() != 1 { return LoopNotClosed at *positions.last().unwrap() }` (innermost unclosed `[`)")
+                      "after the scan an unclosed loop must be reported as LoopNotClosed at the top of the position stack (innermost unclosed `[`): " + why_t)
             res.check(okt, "STACK-PAIR", f"{IR}|parse|acceptance", w0, "acceptance must be decided by the stack depth after the scan")
             inits = {l["pat"].get("name"): ast.src1(IR, l["init"], 200).replace(" ", "") for l in body["stmts"] if l["t"] == "Local" and l["init"] is not None}
             posn_ = posn if "posn" in dir() else "positions"
@@ -301,6 +345,33 @@ def run_parse_rules(res, ast):
         # non-recursion (explicit stacks)
         rec = [c for c in walk_t(body, "Call") if path_name(c["func"]) and path_name(c["func"]).split("::")[-1] == "parse"]
         res.check(not rec, "STACK-PAIR", f"{IR}|parse|nonrec", w0, "parse must not recurse (nesting depth is bounded by the heap, not the call stack)")
+    # ---- the command line names the two bracket errors correctly (reader of the ErrorKind the parser writes)
+    HP = "src/bin/hpbf.rs"
+    if ast.has(HP):
+        res.files.add(HP)
+        res.rule("ERR-MSG", "the command line's error reporter prints, for each bracket error kind, a message that names that kind (not the other one)",
+                 floor=2, what="error kinds")
+        reps = [f_ for f_ in ast.find_fns(HP) if not f_["container"] and len(f_["node"]["sig"]["inputs"]) == 1 and f_["node"]["sig"]["inputs"][0]["t"] == "Arg"
+                and f_["node"]["sig"]["inputs"][0]["ty"]["s"].replace(" ", "") in ("Error", "hpbf::Error")]
+        if len(reps) != 1:
+            res.missing("ERR-MSG", Missing(f"{HP}: the error-reporting function `fn(Error)`"))
+        else:
+            rp = reps[0]["node"]
+            seen = {}
+            for m_ in walk_t(rp["body"], "Match"):
+                for a_ in m_["arms"]:
+                    kinds = [n_["path"]["name"].split("::")[-1] for n_ in walk_t(a_["pat"], "PPath")] + [n_["name"] for n_ in walk_t(a_["pat"], "PIdent")]
+                    lits = " ".join(x["value"] for mc in walk_t(a_["body"], "Macro", "MacroExpr") for x in walk(mc) if x.get("t") == "Lit" and x.get("kind") == "str")
+                    for k_ in kinds:
+                        if k_ in ("LoopNotClosed", "LoopNotOpened"):
+                            seen[k_] = (a_, lits.lower())
+            for k_, good_, bad_ in (("LoopNotClosed", "closed", "opened"), ("LoopNotOpened", "opened", "closed")):
+                if k_ not in seen:
+                    res.bad("ERR-MSG", f"{HP}|{reps[0]['name']}|{k_}", where(HP, rp, reps[0]["name"]), f"no arm reports ErrorKind::{k_}")
+                    continue
+                a_, txt = seen[k_]
+                res.check(good_ in txt and bad_ not in txt, "ERR-MSG", f"{HP}|reporter|{k_}", where(HP, a_, reps[0]["name"]),
+                          f"ErrorKind::{k_} is reported as \"{txt.strip()[:70]}\": the message must say that the loop is not {good_}")
     # ---- in-place dispatch
     try:
         f = ast.fn(INPLACE, "execute_in", contains="InplaceInterpreter")
@@ -329,9 +400,15 @@ def run_parse_rules(res, ast):
             okb = scn is not None and src_bytes and pcs_ and inits.get(scn) == f"{src_bytes[0]}[{pcs_[0]}]"
             res.check(okb, "COMMENT-INERT", f"{INPLACE}|execute_in|scrutinee", where(INPLACE, m, "execute_in"),
                       f"the dispatched value must be the raw byte `{src_bytes[0] if src_bytes else 'code_bytes'}[pc]` (no cast or decoding); found `{inits.get(scn)}`")
+        # positions are byte offsets everywhere in this file: a character iteration numbers positions differently after a multi-byte comment
+        chars_ = [(fr["name"], m_) for fr in ast.find_fns(INPLACE) if not is_test_item(fr) and fr["node"].get("body")
+                  for m_ in walk_t(fr["node"]["body"], "MethodCall") if m_["method"] in ("chars", "char_indices")]
+        res.check(not chars_, "COMMENT-INERT", f"{INPLACE}|bytes-only", where(INPLACE, chars_[0][1], chars_[0][0]) if chars_ else INPLACE,
+                  "the in-place interpreter addresses its source by byte offset (pc, the loop stack, error positions); "
+                  f"`{chars_[0][0] if chars_ else ''}` iterates characters, whose indices differ from byte offsets as soon as a comment contains a multi-byte character")
         # no source text can make the interpreter panic: indices are tested, no unwrap/expect/panicking macro
         res.rule("NO-PANIC", "in the in-place interpreter every index `bytes[i]` is dominated by a still-valid test `i < bytes.len()`, and "
-                 "there is no unwrap/expect/panicking macro: no source string can make it panic", floor=3, what="indices and calls")
+                 "there is no unwrap/expect/panicking macro: no source string can make it panic", floor=2, what="indices and calls")
         index_guards(ast, INPLACE, fn, res, "NO-PANIC", f"{INPLACE}|execute_in")
         pan = [m_["method"] for m_ in walk_t(body, "MethodCall") if m_["method"] in ("unwrap", "expect", "unwrap_unchecked")] + \
             [m_["mac"]["name"] for m_ in walk_t(body, "MacroExpr") if m_["mac"]["name"] in ("panic", "unreachable", "unimplemented", "todo", "assert", "assert_eq")]
